@@ -99,6 +99,15 @@ func c17StringCalls() []c17Call {
 		mkTest("Min(0)", "min", "min", 0, false, func(v string) bool { return true }, func(s *z.StringSchema[string], o ...z.TestOption) *z.StringSchema[string] { return s.Min(0, o...) }),
 		mkTest("Not().Len(0)", "len", "len", 0, true, func(v string) bool { return len(v) == 0 }, func(s *z.StringSchema[string], o ...z.TestOption) *z.StringSchema[string] { return s.Not().Len(0, o...) }),
 		mkTest("Not().OneOf([])", "one_of_options", "one_of_options", []string{}, true, func(v string) bool { return false }, func(s *z.StringSchema[string], o ...z.TestOption) *z.StringSchema[string] { return s.Not().OneOf([]string{}, o...) }),
+		// Not() as a statement of its own, then a test Not()'s return type does not offer (the schema value itself does)
+		mkTest("Not(); then Min(3)", "min", "min", 3, true, func(v string) bool { return len(v) >= 3 }, func(s *z.StringSchema[string], o ...z.TestOption) *z.StringSchema[string] {
+			s.Not()
+			return s.Min(3, o...)
+		}),
+		mkTest("Not(); then Max(5)", "max", "max", 5, true, func(v string) bool { return len(v) <= 5 }, func(s *z.StringSchema[string], o ...z.TestOption) *z.StringSchema[string] {
+			s.Not()
+			return s.Max(5, o...)
+		}),
 		{name: "TestFunc(noZ)", hasOpt: true, apply: func(s *z.StringSchema[string], m *c17StrModel, opt int) *z.StringSchema[string] {
 			t := c17Test{code: "", pred: func(v string) bool { return !strings.Contains(v, "z") }}
 			opts := c17Opt(len(m.tests), opt, &t)
@@ -581,7 +590,7 @@ func init() {
 		Rule:  "one execution = one chain of ≤L builder calls on z.String() from {Min, Max, Len, HasPrefix, ContainsDigit, Not().Len, Not().HasPrefix, Not().ContainsDigit, Not().Contains, degenerate parameters Contains(empty), Not().Contains(empty), Not().HasPrefix(empty), Min(0), Not().Len(0), Not().OneOf(empty list), TestFunc} × option {none, Message, IssueCode, IssuePath, Params, Params given twice (a shared map, then the test's own)} and {Required, Required(Message), Optional, Default ×2, Catch ×2}, built through the real API and run on 7 subjects in both modes against a list-based model of what each call means; plus Int chains (tests × options, modifiers), plus one schema object at two places (two fields, field + slice element, field + behind pointer) vs independent copies, plus WithCoercer locality (own schema; through Ptr); every chain is non-trivial; distinct = distinct chains",
 		Floor: 50,
 		Bound: func(tier string) string { return fmt.Sprintf("all String chains of length ≤%d, all Int chains of length ≤3", c17Len(tier)) },
-		Assumptions: []string{"Not() is followed only by the methods of the interface it returns (what the type system permits)", "messages are compared only where a Message option was given"},
+		Assumptions: []string{"Not() is followed by the methods of the interface it returns, or — called as a statement of its own — by Min / Max on the schema value (all the type system permits)", "messages are compared only where a Message option was given"},
 		Items: func(tier string) []Item {
 			items := []Item{
 				{Name: "int-chains", MaxDevs: -1, Run: c17NumberScenario},
